@@ -53,6 +53,27 @@ fn corpus() -> Vec<Case> {
         c.input.bs = 64;
         v.push(c);
     }
+    // residuals with several Rice partitions (noise gated every 64 samples, a quiet stretch before noise):
+    // a refused code word in a partition that is not the last one
+    {
+        let mut c = universe::decode(&universe::base_points()[0]);
+        c.input.bps = 16;
+        c.input.bs = 256;
+        c.input.atoms = [24, 30, 25, 24];
+        c.input.full = 2;
+        c.input.tail = 0;
+        v.push(c);
+    }
+    // a frame above 16 KiB (whole-stream, frame and header targets only): scratch buffers that are
+    // treated differently once they have grown
+    {
+        let mut c = universe::decode(&universe::base_points()[2]);
+        c.input.bs = 4096;
+        c.input.atoms = [22, 22, 22, 22];
+        c.input.full = 1;
+        c.input.tail = 0;
+        v.push(c);
+    }
     v
 }
 
@@ -212,6 +233,8 @@ fn run_target(rep: &Report, local: &mut Local, t: &Target) {
     local.nontrivial.insert(universe::fnv(&serde_json::to_string(t).unwrap()));
 }
 
+static MULTI_PARTITION: std::sync::atomic::AtomicUsize = std::sync::atomic::AtomicUsize::new(0);
+
 fn targets(thorough: bool) -> Vec<Target> {
     let mut v = Vec::new();
     let mut cases = corpus();
@@ -238,7 +261,15 @@ fn targets(thorough: bool) -> Vec<Target> {
             for what in ["frame", "frame_precomputed", "frame_header"] {
                 v.push(Target { case: case.clone(), what: what.into(), frame: f, ch: 0 });
             }
+            if case.input.bs >= 4096 {
+                continue;
+            }
             for ch in 0..s.frame(f).unwrap().subframe_count() {
+                match s.frame(f).unwrap().subframe(ch) {
+                    Some(SubFrame::FixedLpc(x)) if x.residual().partition_order() > 0 => MULTI_PARTITION.fetch_add(1, std::sync::atomic::Ordering::SeqCst),
+                    Some(SubFrame::Lpc(x)) if x.residual().partition_order() > 0 => MULTI_PARTITION.fetch_add(1, std::sync::atomic::Ordering::SeqCst),
+                    _ => 0,
+                };
                 v.push(Target { case: case.clone(), what: "subframe".into(), frame: f, ch });
                 v.push(Target { case: case.clone(), what: "residual".into(), frame: f, ch });
             }
@@ -274,5 +305,10 @@ pub fn run(args: &Args, rep: &Arc<Report>) {
         },
     );
     rep.extra("targets", json!(n));
-    rep.set_rule("targets (plus every single-coordinate deviation of the universe base points with block size <= 64 and <= 3 channels): 7 streams (1/2/8 channels, constant+verbatim+fixed+LPC subframes, 2-3 frames; two with isolated full-scale clicks, i.e. unary codes longer than 64 zeros) as whole streams (plain, with precomputed frames, with an extra metadata block), STREAMINFO, a metadata block, and every frame (plain/precomputed), frame header, subframe and residual of them; for each target and each of four sink flavours (required methods only / all methods / failing only in write_bytes_aligned / failing once and accepting again afterwards) the sink fails on operation k for EVERY k in 0..N (N = operations of a full write, measured); oracle: write returns Err(OutputError::Sink), no panic, the bits accepted before the failure are a prefix of the reference bit string; non-trivial = a target whose sweep ran");
+    let mp = MULTI_PARTITION.load(std::sync::atomic::Ordering::SeqCst);
+    rep.extra("residual_targets_with_several_partitions", json!(mp));
+    if mp == 0 {
+        rep.machinery_error("no residual target has more than one Rice partition");
+    }
+    rep.set_rule("targets (plus every single-coordinate deviation of the universe base points with block size <= 64 and <= 3 channels): 9 streams (1/2/8 channels, constant+verbatim+fixed+LPC subframes, 2-3 frames; two with isolated full-scale clicks, i.e. unary codes longer than 64 zeros; one with blocks of 256 samples whose residuals have several Rice partitions; one with a 24 KiB frame - stream, frame and header targets only) as whole streams (plain, with precomputed frames, with an extra metadata block), STREAMINFO, a metadata block, and every frame (plain/precomputed), frame header, subframe and residual of them; for each target and each of four sink flavours (required methods only / all methods / failing only in write_bytes_aligned / failing once and accepting again afterwards) the sink fails on operation k for EVERY k in 0..N (N = operations of a full write, measured); oracle: write returns Err(OutputError::Sink), no panic, the bits accepted before the failure are a prefix of the reference bit string; non-trivial = a target whose sweep ran");
 }
